@@ -25,6 +25,7 @@ def run(ctx: Ctx) -> None:
     ctx.rule('R-TERM-T3', 'no regex shape with exponential backtracking')
     ctx.rule('R-TERM-index', 'constant-index subscripts are guarded by a non-emptiness fact')
     ctx.rule('R-TERM-none', 'values marko may return as None are tested before use')
+    ctx.rule('R-TERM-T3dep', 'thorough: marko\'s literal regex patterns have no exponential-backtracking shape')
     ctx.rule('R-PREFIX-P4', 'empty code lines carry no trailing spaces')
     ctx.rule('R-PREFIX-P6', 'rendered blocks are newline-terminated')
     ctx.rule('R-LOSSLESS-L5', 'no placeholder survives the word splitter')
@@ -38,3 +39,5 @@ def run(ctx: Ctx) -> None:
     ctx.run(render.check_prefix, {"P6"})
     ctx.run(wrap.check_placeholders)
     ctx.run(rewrite.check_writeback)
+    if ctx.tier == "thorough":
+        ctx.run(term.check_dependency_regexes)
